@@ -19,6 +19,12 @@ def run(ctx):
     ss += S.generate(ctx, 8 if ctx.quick else 40, 2 if ctx.quick else 4, max_e=10, max_loops=4, routings_per_graph=4,
                      names=["banana4", "banana5", "ladder3x", "banana4", "ladder3x"])
     ss += S.generate(ctx, 2 if ctx.quick else 10, 2, max_e=6, max_loops=5, routings_per_graph=2, names=["banana6"])
+    # many unimodular bases with entries of magnitude 2..5 (integer encodings of signature rows must not collide)
+    ss += S.generate(ctx, 3 if ctx.quick else 12, 1, max_e=6, max_loops=4, routings_per_graph=12, names=["banana4", "banana5", "mercedes"],
+                     variant="big", kinds=("uniform",))
+    # bases in which loops that share no edge are NEIGHBOURS and coupled loops are not (zeros next to the diagonal of L, non-zeros further out)
+    ss += S.generate(ctx, 3 if ctx.quick else 12, 1, max_e=7, max_loops=4, routings_per_graph=8,
+                     names=["sunrise_tadpole", "bubble_chain3", "triangle_tadpole", "bubble_chain"], variant="permuted", kinds=("uniform",))
     # as many edges as loops (bouquets of self-loops): the signature is a square matrix; non-symmetric bases
     ss += S.generate(ctx, 4 if ctx.quick else 16, 2, max_e=4, max_loops=3, routings_per_graph=4, names=["tadpole_pair", "rose3"], mass_mode="all")
     S.run(ss)
